@@ -180,6 +180,12 @@ pub fn eval<D: Dom>(c: &Case<D>, mode: Mode, o: &mut Out) -> Evaluated {
                     o.violation(format!("{}: SinglePatternMatcher panicked", D::NAME), replay.clone());
                     continue;
                 };
+                // the Rust oracle and the Coq specification of occurrence, compared on every case
+                o.case(
+                    sexp::l(vec![sexp::a("occ"), sexp::a(D::NAME), D::pat_s(p), D::host_s(h)]).to_string(),
+                    S::L(occ[pi][hi].clone()).to_string(),
+                    !occ[pi][hi].is_empty(),
+                );
                 let anchors: Vec<S> = ms.iter().map(D::anchor).collect();
                 let nontrivial = !occ[pi][hi].is_empty();
                 o.case(
